@@ -15,6 +15,10 @@ MeetOut(fout, vp) ==
   IF vp = {} THEN {}
   ELSE LET p0 == CHOOSE p \in vp : TRUE IN { f \in fout[p0] : \A p \in vp : f \in fout[p] }
 
+\* a node that was promoted to a root is an entry of (unreachable) code: nothing is known there, whatever its
+\* predecessors say   (`if roots.contains(node) { default } else { meet }`)
+RootIn(pinned, roots, n, meet) == IF pinned /\ n \in roots THEN {} ELSE meet
+
 \* `changed |= set_*_in(..); changed |= set_*_out(..); changed |= visited.insert(node)`
 ChangedAfter(changed, newIn, newOut, oldIn, oldOut, firstVisit, firstVisitCounts) ==
   changed \/ newIn # oldIn \/ newOut # oldOut \/ (firstVisitCounts /\ firstVisit)
@@ -23,8 +27,10 @@ ChangedAfter(changed, newIn, newOut, oldIn, oldOut, firstVisit, firstVisitCounts
 SweepOutcome(changed, waiting) ==
   IF changed THEN "again" ELSE IF waiting # 0 THEN "promote" ELSE "stop"
 
-\* the bound on the number of sweeps of one run that TLC establishes for the model
-\* (PassLoop.cfg: all graphs with N <= 3 reach 4 * N - 1; chains of dead loops that
-\* are promoted to roots one at a time)
+\* the bound on the number of sweeps of one run that TLC establishes for the model (one fact; all graphs with
+\* N <= 4 and out-degree <= 2 reach exactly 2 * N + 1: one sweep per promoted root, one per step down the chain)
+ModelSweepLimit(n) == 2 * n + 1
+\* the cap applied to runs of the real pass, whose facts are many (every register and stack slot is one): each can
+\* cost further sweeps, so the observed runs get a wider allowance - still "a small multiple of the program size"
 SweepLimit(n) == 4 * n + 3
 =============================================================================
